@@ -6,13 +6,16 @@ package main
 import (
 	"context"
 	"fmt"
+	"net/url"
 	"os"
+	"os/exec"
 	"path/filepath"
 	"strconv"
 	"strings"
 
 	"luahelper-lsp/langserver"
 	"luahelper-lsp/langserver/lspcommon"
+	"luahelper-lsp/langserver/pathpre"
 	lsp "luahelper-lsp/langserver/protocol"
 )
 
@@ -83,6 +86,20 @@ func c02Hex(s string) string { return string(unhex(s)) }
 
 var c02Names = []string{"d0.lua", "d1.lua", "d2.lua", "d3.txt"}
 
+// the file a URI name denotes (RFC 3986 reading: percent-decoded, '+' is '+'), relative to the root; "" if the name
+// is malformed, leaves the root or is no plain file name (nothing is written to disk for it)
+func c02DiskRel(name string) string {
+	p, err := url.PathUnescape(name)
+	if err != nil || p == "" || strings.ContainsAny(p, "\\\x00") || strings.HasSuffix(p, "/") {
+		return ""
+	}
+	c := filepath.Clean("/" + p)
+	if c != "/"+p {
+		return ""
+	}
+	return p
+}
+
 func c02History(line string) string {
 	root, err := os.MkdirTemp("", "verif-c02-")
 	if err != nil {
@@ -92,11 +109,28 @@ func c02History(line string) string {
 	root, _ = filepath.EvalSymlinks(root)
 	srv := langserver.VerifC02NewServer(root)
 	ctx := context.Background()
-	uri := func(d int) lsp.DocumentURI { return lsp.DocumentURI("file://" + root + "/" + c02Names[d]) }
-	file := func(d int) string { return root + "/" + c02Names[d] }
+	toks := strings.Fields(line)
+	names := c02Names
+	if len(toks) > 0 && strings.HasPrefix(toks[0], "U:") {
+		names = nil
+		for _, h := range strings.Split(toks[0][2:], ",") {
+			names = append(names, string(unhex(h)))
+		}
+		toks = toks[1:]
+	}
+	// the URI exactly as the client spells it: file://<root>/<name>
+	uri := func(d int) lsp.DocumentURI { return lsp.DocumentURI("file://" + root + "/" + names[d]) }
+	write := func(d int, text string) {
+		rel := c02DiskRel(names[d])
+		if rel == "" {
+			return
+		}
+		os.MkdirAll(filepath.Dir(root+"/"+rel), 0o755)
+		os.WriteFile(root+"/"+rel, []byte(text), 0o644)
+	}
 	state := func() string {
 		var parts []string
-		for d := range c02Names {
+		for d := range names {
 			b, ok := srv.VerifC02CachedText(string(uri(d)))
 			if !ok {
 				parts = append(parts, "~")
@@ -116,7 +150,7 @@ func c02History(line string) string {
 		switch tok[0] {
 		case 'O':
 			text := c02Cps(tok[3:])
-			os.WriteFile(file(d), []byte(text), 0o644) // the client opens what is on disk
+			write(d, text) // the client opens what is on disk
 			srv.TextDocumentDidOpen(ctx, lsp.DidOpenTextDocumentParams{TextDocument: lsp.TextDocumentItem{URI: uri(d), Text: text}})
 		case 'C':
 			srv.TextDocumentDidChange(ctx, lsp.DidChangeTextDocumentParams{
@@ -126,7 +160,7 @@ func c02History(line string) string {
 			p := lsp.DidSaveTextDocumentParams{TextDocument: lsp.TextDocumentIdentifier{URI: uri(d)}}
 			if tok[3:] != "nil" {
 				text := c02Cps(tok[3:])
-				os.WriteFile(file(d), []byte(text), 0o644) // saving writes the file, then the notification is sent
+				write(d, text) // saving writes the file, then the notification is sent
 				p.Text = &text
 			}
 			srv.TextDocumentDidSave(ctx, p)
@@ -138,7 +172,7 @@ func c02History(line string) string {
 		return state()
 	}
 	var out []string
-	for _, tok := range strings.Fields(line) {
+	for _, tok := range toks {
 		o := step(tok)
 		out = append(out, o)
 		if o == "PANIC" {
@@ -184,4 +218,34 @@ func init() {
 	// case: notifications separated by blanks, texts as code points
 	register("c02.history", c02History)
 	register("c02.history_bad", c02History)
+	// case: a URI in hex; answer: pathpre.VscodeURIToString of it, in hex.
+	// c02.uri: preFixStr = "file://" (what InitialRootURIAndPath sets for a root URI file://<rootPath>, the Unix case);
+	// c02.uri3: preFixStr = "file:///" (the initial value, kept for file:///c%3A/... roots). The variable is a package
+	// global that is only ever switched one way, and every leg runs in its own process.
+	register("c02.uri", func(line string) string {
+		pathpre.InitialRootURIAndPath("file:///r", "/r")
+		return hx([]byte(pathpre.VscodeURIToString(string(unhex(line)))))
+	})
+	register("c02.uri3", func(line string) string {
+		return hx([]byte(pathpre.VscodeURIToString(string(unhex(line)))))
+	})
+	// case: <root URI hex> <root path hex>; answer: 2 if pathpre.InitialRootURIAndPath switches the prefix to "file://",
+	// 3 if it stays "file:///". The switch is one-way, so every case runs in a fresh process (hidden leg c02.rootprefix.one).
+	register("c02.rootprefix.one", func(line string) string {
+		f := strings.Fields(line)
+		pathpre.InitialRootURIAndPath(string(unhex(f[0])), string(unhex(f[1])))
+		if pathpre.VscodeURIToString("file:///x") == "/x" {
+			return "2"
+		}
+		return "3"
+	})
+	register("c02.rootprefix", func(line string) string {
+		cmd := exec.Command(os.Args[0], "c02.rootprefix.one")
+		cmd.Stdin = strings.NewReader(line + "\n")
+		out, err := cmd.Output()
+		if err != nil {
+			return "CHILDERR"
+		}
+		return strings.TrimSpace(string(out))
+	})
 }
